@@ -25,7 +25,7 @@ from mc.harness import Result, Sub
 from mc.ref import purity as P
 
 ASSUMPTIONS = [
-    "events = 86 public entry points with fixed small arguments on shared fixtures (2D: N=8, 3D: N=9, 3 frames, two species; "
+    "events = 125 public entry points (97 base events + 28 siblings that repeat a routine with one argument changed) with fixed small arguments on shared fixtures (2D: N=8, 3D: N=9, 3 frames, two species; "
     "3D box centred on the origin so that the freud path aliases snapshot.positions); voropp_neighbors (external voro++ "
     "binary) and the gsd readers (gsd module not installed) are not in the alphabet",
     "results must be BIT-identical between calls; this relies on the harness pinning BLAS/OpenMP/freud to one thread",
